@@ -122,8 +122,9 @@ DigitsToNat(ds, base) ==
          IN NatAdd(NatMul(hi, NatPow(<<base>>, h)), lo)
 
 DecVals(s) == [j \in 1..Len(s) |-> s[j] - 48]
-RECURSIVE StripZeros(_)
-StripZeros(ds) == IF ds # <<>> /\ ds[1] = 0 THEN StripZeros(Tail(ds)) ELSE ds
+RECURSIVE FirstNonZero(_, _)
+FirstNonZero(ds, j) == IF j > Len(ds) THEN j ELSE IF ds[j] # 0 THEN j ELSE FirstNonZero(ds, j + 1)
+StripZeros(ds) == SubSeq(ds, FirstNonZero(ds, 1), Len(ds))
 RECURSIVE SmallDec(_, _, _)
 SmallDec(ds, j, acc) == IF j > Len(ds) \/ acc < 0 THEN acc ELSE SmallDec(ds, j + 1, acc * 10 + ds[j])
 
